@@ -338,6 +338,39 @@ def parse_route(s):
     return [(int(i[1:]), "".join(chr(int(x)) for x in p[1:].split(",")) if len(p) > 1 else "")]
 
 
+def listed_dirs(record):
+    """Names of the directory entries in the model's record of a scandir call ('ok:[(name|T|size|mt);...]#trees')."""
+    out = record.split("#", 1)[0]
+    if not out.startswith("ok:[") or out == "ok:[]":
+        return []
+    names = []
+    for item in out[4:-1].split(";"):
+        name, is_dir = item[1:].split("|")[:2]
+        if is_dir == "T":
+            names.append("".join(chr(int(x)) for x in name[1:].split(",")) if len(name) > 1 else "")
+    return names
+
+
+def expected_routes(items):
+    """items: [(cfg, history, call index, the model's record of that call)] -> what each mounted filesystem must have
+    been handed first, as Route/Composite.v says: the delegate of the call's path (Route.v mount_delegate: member AND
+    relative path); and for a scandir answered by the DEFAULT filesystem (mount_scandir / scan_mount_points) the members
+    mounted directly on a directory entry of the model's listing are asked getinfo('') - nobody else is asked anything."""
+    from fs.path import abspath, forcedir, normpath
+    first = common.run_model_parallel([route_line(cfg, h[k][1]) for cfg, h, k, _r in items], chunk=5000) if items else []
+    expected = [parse_route(e) for e in first]
+    extra = []       # (index into items, route line of <dir key> + name)
+    for n, (cfg, h, k, rec) in enumerate(items):
+        if h[k][0] == "scandir" and first[n] == "ok:N" and cfg["mounts"]:
+            key = forcedir(abspath(normpath(h[k][1])))
+            for name in listed_dirs(rec):
+                extra.append((n, route_line(cfg, key + name)))
+    answers = common.run_model_parallel([l for _n, l in extra], chunk=5000) if extra else []
+    for (n, _l), a in zip(extra, answers):
+        expected[n] = sorted(expected[n] + [r for r in parse_route(a) if r[1] == ""])
+    return expected, first
+
+
 def first_diff(model, real):
     n = min(len(model), len(real))
     for i in range(n):
@@ -361,15 +394,17 @@ def run_composite_checks(report, rnd, tier):
         history, records, paging, routed = run_case(cfg, None, rnd, rnd.randint(3, maxlen))
         cases.append((cfg, history, records, paging))
         for k, seen in routed:
-            route_obs.append((cfg, history, k, seen))
+            route_obs.append((cfg, history, k, seen, len(cases) - 1))
     lines = [model_line(cfg, h) for cfg, h, _r, _p in cases]
     model = common.run_model_parallel(lines, chunk=400)
     # the path each mounted filesystem is handed: exactly Route.v's mount_delegate (member AND relative path),
     # nobody else is asked anything
-    rlines = [route_line(cfg, h[k][1]) for cfg, h, k, _s in route_obs]
-    rmodel = common.run_model_parallel(rlines, chunk=5000) if rlines else []
-    route_bad = [(cfg, h, k, seen, exp) for (cfg, h, k, seen), exp in zip(route_obs, rmodel)
-                 if sorted(seen) != parse_route(exp)]
+    route_bad = None      # filled in below, once the model's records are split
+    recs = [out.split(" ") if out else [] for out in model]
+    items = [(cfg, h, k, recs[ci][k + 1] if k + 1 < len(recs[ci]) else "") for cfg, h, k, _s, ci in route_obs]
+    expected, first = expected_routes(items)
+    route_bad = [(cfg, h, k, seen, "%s -> %s" % (f, e)) for (cfg, h, k, seen, _ci), e, f in zip(route_obs, expected, first)
+                 if sorted(seen) != e]
     calls = 0
     bad = []
     paging_bad = []
@@ -412,7 +447,8 @@ def run_composite_checks(report, rnd, tier):
             print("ROUTE-MISMATCH", [m["path"] for m in cfg["mounts"]], h_fs.op_json(h[k]), seen, exp)
         report.violation(dict(kind="composite-differs-from-model", composite="mount", config=config_json(cfg),
                               history=[h_fs.op_json(o) for o in h[:k + 1]], step=k,
-                              what="filesystem / relative path handed over by MountFS._delegate",
+                              what="filesystem / relative path handed over by MountFS._delegate (for a scandir of a default-tree "
+                                   "directory: plus getinfo('') of the filesystems mounted on its entries)",
                               model=exp, implementation=[list(x) for x in seen],
                               theorem=THEOREM + " mount_route_member"), no_input=True)
     for cfg, h, pg in paging_bad[:2]:
@@ -448,10 +484,11 @@ def replay_composite(d):
     out = common.run_model([model_line(cfg, history)])[0]
     exp = out.split(" ") if out else []
     k = first_diff(exp, real)
-    for j, seen in routed:
-        e = common.run_model([route_line(cfg, history[j][1])])[0]
-        if sorted(seen) != parse_route(e):
-            print("call %d %s: MountFS handed %r, Route.v mount_delegate says %s" % (j, h_fs.op_json(history[j]), seen, e))
+    expected, _first = expected_routes([(cfg, history, j, exp[j + 1] if j + 1 < len(exp) else "") for j, _s in routed])
+    for (j, seen), e in zip(routed, expected):
+        if sorted(seen) != e:
+            print("call %d %s: MountFS handed %r, the model (mount_delegate / scan_mount_points) says %s" % (
+                j, h_fs.op_json(history[j]), seen, e))
             return 1
     if k is None and not paging:
         print("composite %s: model and implementation agree on %d calls" % (cfg["kind"], len(history)))
